@@ -21,8 +21,13 @@ def admissible(rng, edge=False):
             return dict(zip(NAMES, n + s + k))
 
 
-def sat_records(rows):
-    return np.array([tuple(r) for r in rows], dtype=[("So", "f8"), ("Sw", "f8"), ("Sg", "f8")])
+ORDERS = [("So", "Sw", "Sg"), ("So", "Sg", "Sw"), ("Sw", "So", "Sg"), ("Sg", "Sw", "So"), ("Sw", "Sg", "So"), ("Sg", "So", "Sw")]
+
+
+def sat_records(rows, order=("So", "Sw", "Sg")):
+    """rows are (So, Sw, Sg) triples; the record array lists its fields in the given order (phases are identified by NAME)"""
+    pos = {"So": 0, "Sw": 1, "Sg": 2}
+    return np.array([tuple(r[pos[f]] for f in order) for r in rows], dtype=[(f, "f8") for f in order])
 
 
 def run(ctx):
@@ -48,7 +53,7 @@ def run(ctx):
         rows.append((par["S_or"], par["S_wc"], 1 - par["S_or"] - par["S_wc"]))
         rows.append((0.3, 0.3, 0.4 + 5e-4))
         try:
-            kr = relative_permeabilities(sat_records(rows), P)
+            kr = relative_permeabilities(sat_records(rows, ORDERS[k % len(ORDERS)]), P)
         except Exception as e:  # noqa: BLE001
             bad("an admissible parameter set / saturation record is rejected", dict(params=par, saturations=rows), repr(e)[:200])
             continue
